@@ -275,6 +275,7 @@ fn run_sched(c: &[Val]) -> Val {
         }
     }
     if !ok {
+        vh::note_stuck();
         return Val::text("stuck");
     }
     for j in joins {
